@@ -31,6 +31,7 @@ type a3 struct {
 	changed  bool
 	rows     []*reviewRow
 	noExpand bool
+	cbBind   map[*ssa.Parameter][]*ssa.Function // callback parameters bound to the functions one call site passes
 }
 
 type cdInfo struct {
@@ -593,7 +594,7 @@ func runC12(c *Ctx) {
 	for _, r := range rows {
 		if !r.used {
 			c.SetConfig("tables")
-			c.Fail("stale-table", "gomaxprocs:"+r.typ+":"+r.loc, "", "reviewed line no longer matches anything (remove it): "+r.typ+" "+r.loc)
+			c.Stale("gomaxprocs:"+r.typ+":"+r.loc)
 		}
 	}
 }
@@ -699,11 +700,12 @@ func isPlumbingCallee(f *ssa.Function) bool {
 // created or spawned there) and stores to non-local, non-per-worker memory.
 type effects struct {
 	calls  map[*ssa.Function]token.Pos
+	sites  map[*ssa.Function][]ssa.CallInstruction
 	stores []token.Pos
 }
 
 func (a *a3) effectsOf(blocks map[*ssa.BasicBlock]bool, skip *ssa.BasicBlock) effects {
-	ef := effects{calls: map[*ssa.Function]token.Pos{}}
+	ef := effects{calls: map[*ssa.Function]token.Pos{}, sites: map[*ssa.Function][]ssa.CallInstruction{}}
 	var visitFn func(f *ssa.Function, pos token.Pos, depth int)
 	scan := func(b *ssa.BasicBlock, depth int) {
 		for _, in := range b.Instrs {
@@ -732,6 +734,10 @@ func (a *a3) effectsOf(blocks map[*ssa.BasicBlock]bool, skip *ssa.BasicBlock) ef
 					callees = []*ssa.Function{sc}
 				} else if mc, ok := cc.Value.(*ssa.MakeClosure); ok {
 					callees = []*ssa.Function{mc.Fn.(*ssa.Function)}
+				} else if par := funcParamOf(cc.Value); par != nil && a.cbBind[par] != nil {
+					// a callback parameter of a plumbing wrapper that is being expanded for one call
+					// site: what that call site passes, not every function the call graph knows
+					callees = a.cbBind[par]
 				} else {
 					if n := a.p.CallGraph().Nodes[b.Parent()]; n != nil {
 						for _, e := range n.Out {
@@ -749,14 +755,18 @@ func (a *a3) effectsOf(blocks map[*ssa.BasicBlock]bool, skip *ssa.BasicBlock) ef
 						ef.calls[callee] = x.Pos()
 						continue
 					}
-					if callee.Parent() != nil && a.noExpand {
+					// the function run by a go statement is a goroutine body whether it is written as a
+					// closure or as a named worker function
+					_, spawned := x.(*ssa.Go)
+					if (callee.Parent() != nil || spawned) && a.noExpand {
 						continue
 					}
-					if callee.Parent() != nil {
+					if callee.Parent() != nil || spawned {
 						// closure body: its contents count as being here
 						visitFn(callee, x.Pos(), depth+1)
 					} else {
 						ef.calls[callee] = x.Pos()
+						ef.sites[callee] = append(ef.sites[callee], x)
 					}
 				}
 			}
@@ -811,7 +821,7 @@ func (a *a3) kernelsOf(ef effects, depth int) (map[string]bool, bool) {
 	pure := len(ef.stores) == 0
 	for f := range ef.calls {
 		expanded := false
-		if depth < 2 && a.p.IsModFunc(f) {
+		if depth < 3 && a.p.IsModFunc(f) {
 			hasT := false
 			for _, par := range f.Params {
 				if a.T(par) {
@@ -823,7 +833,28 @@ func (a *a3) kernelsOf(ef effects, depth int) (map[string]bool, bool) {
 				for _, b := range f.Blocks {
 					all[b] = true
 				}
+				// bind function-typed parameters to what the call sites of this arm pass
+				saved := a.cbBind
+				a.cbBind = map[*ssa.Parameter][]*ssa.Function{}
+				for k, v := range saved {
+					a.cbBind[k] = v
+				}
+				for _, site := range ef.sites[f] {
+					args := site.Common().Args
+					for i, par := range f.Params {
+						if _, isFn := par.Type().Underlying().(*types.Signature); !isFn || i >= len(args) {
+							continue
+						}
+						switch av := args[i].(type) {
+						case *ssa.MakeClosure:
+							a.cbBind[par] = append(a.cbBind[par], av.Fn.(*ssa.Function))
+						case *ssa.Function:
+							a.cbBind[par] = append(a.cbBind[par], av)
+						}
+					}
+				}
 				sub := a.effectsOf(all, nil)
+				a.cbBind = saved
 				ks, p2 := a.kernelsOf(sub, depth+1)
 				if !p2 {
 					pure = false
@@ -1228,11 +1259,22 @@ func (a *a3) describeEffects(e effects) string {
 	return fmt.Sprintf("calls %s, stores at [%s]", setStr(ks), strings.Join(st, " "))
 }
 
-func spawnsGoroutines(f *ssa.Function) bool {
+func spawnsGoroutines(f *ssa.Function) bool { return spawnsWithin(f, 2) }
+
+// spawnsWithin: f contains a go statement, or hands its work to a module function that does
+// (a parallel driver that delegates the fan-out to a shared helper).
+func spawnsWithin(f *ssa.Function, depth int) bool {
 	for _, b := range f.Blocks {
 		for _, in := range b.Instrs {
-			if _, ok := in.(*ssa.Go); ok {
+			switch x := in.(type) {
+			case *ssa.Go:
 				return true
+			case *ssa.Call:
+				if depth > 0 {
+					if cal := x.Call.StaticCallee(); cal != nil && cal.Blocks != nil && cal.Pkg == f.Pkg && cal != f && spawnsWithin(cal, depth-1) {
+						return true
+					}
+				}
 			}
 		}
 	}
@@ -1254,4 +1296,59 @@ func derivedInduction(phi *ssa.Phi, h *ssa.BasicBlock, reg map[*ssa.BasicBlock]b
 		}
 	}
 	return true
+}
+
+// funcParamOf: the function-typed parameter a called value denotes - the parameter itself, or a load
+// of the captured cell that holds it inside a closure of the same function.
+func funcParamOf(v ssa.Value) *ssa.Parameter {
+	for i := 0; i < 4; i++ {
+		switch x := v.(type) {
+		case *ssa.Parameter:
+			return x
+		case *ssa.UnOp:
+			if x.Op != token.MUL {
+				return nil
+			}
+			v = x.X
+		case *ssa.FreeVar:
+			fn := x.Parent()
+			par := fn.Parent()
+			if par == nil {
+				return nil
+			}
+			var bound ssa.Value
+			for _, b := range par.Blocks {
+				for _, in := range b.Instrs {
+					if mc, ok := in.(*ssa.MakeClosure); ok && mc.Fn == ssa.Value(fn) {
+						for k, fv := range fn.FreeVars {
+							if fv == x {
+								bound = mc.Bindings[k]
+							}
+						}
+					}
+				}
+			}
+			if bound == nil {
+				return nil
+			}
+			v = bound
+		case *ssa.Alloc:
+			// a parameter spilled into a cell because a closure captures it
+			var val ssa.Value
+			n := 0
+			for _, ref := range *x.Referrers() {
+				if st, ok := ref.(*ssa.Store); ok && st.Addr == ssa.Value(x) {
+					n++
+					val = st.Val
+				}
+			}
+			if n != 1 {
+				return nil
+			}
+			v = val
+		default:
+			return nil
+		}
+	}
+	return nil
 }
